@@ -166,6 +166,20 @@ def t_shared(rng, lvl, u):
     return "\n".join(out)
 
 
+@template(tags=("shared_consts", "FLAG_REF", "big_tuple"))
+def t_shared_big_tuple(rng, lvl, u):
+    """The same > 255-element constant tuple in two functions whose other constants differ: from 3.8 on marshal
+    writes it once with FLAG_REF and refers back to it (and to its flagged elements)."""
+    n = rng.choice([256, 260, 300])
+    base = rng.randrange(10 ** 6)
+    elems = ", ".join(("%d" % (base + 3 * i)) if i % 7 else ("'e%s_%d'" % (u, i)) for i in range(n))
+    return """def sbt%(u)s_a(x):
+    return x in (%(e)s), 'only-a-%(u)s', %(k)d
+def sbt%(u)s_b(x):
+    return x in (%(e)s), 'only-b-%(u)s', 2.5
+print(sbt%(u)s_a(%(b)d)[0], sbt%(u)s_b(-1)[0])""" % {"u": u, "e": elems, "k": 2 ** 40 + base, "b": base + 3}
+
+
 @template(tags=("closure", "cell_param"))
 def t_closure(rng, lvl, u):
     depth = rng.randrange(1, 5)
@@ -570,7 +584,7 @@ def wrap_in_class(code, u):
     return "class Wrap%s(object):\n%s\n    pass" % (u, ind)
 
 
-NO_WRAP = {"t_many_names", "t_misc", "t_import", "t_pep695", "t_line_gaps"}
+NO_WRAP = {"t_shared_big_tuple", "t_many_names", "t_misc", "t_import", "t_pep695", "t_line_gaps"}
 NO_CLASS_WRAP = NO_WRAP | {"t_class3", "t_closure", "t_shared", "t_class2", "t_async", "t_control", "t_deep",
                            "t_backward_lines", "t_long_columns", "t_py2_long", "t_ints", "t_floats", "t_complex",
                            "t_strings", "t_bytes", "t_comp", "t_misc3", "t_try_nest", "t_match", "t_except_star",
